@@ -57,6 +57,8 @@ type c17Flow struct {
 
 type c17World struct {
 	shapeSeed int
+	defURI    string // configured DefaultRedirectURI as the middleware will use it ("/" when unset)
+	tokName   string // session cookie name
 	c         *core.Ctx
 	cfg       string
 	root      string
@@ -94,6 +96,17 @@ func c17NewWorld(c *core.Ctx, https bool, post bool, customRS bool, key string) 
 	w.cfg = fmt.Sprintf("https=%v post=%v customRS=%v key=%s", https, post, customRS, key)
 	kp := fx.K(key)
 	opts := samlsp.Options{URL: mustURL(w.root), Key: kp.Key, Certificate: kp.Cert, IDPMetadata: so.IDPMetadata("meta-one-signing")}
+	// deployment options that must not matter to who gets a session, but decide where a flow without RelayState ends
+	w.defURI, w.tokName = "/", "token"
+	if d := []string{"", "", "/home", "/app/start?x=1&y=%2F"}[c.Rng.Intn(4)]; d != "" {
+		opts.DefaultRedirectURI, w.defURI = d, d
+	}
+	if c.Rng.Intn(3) == 0 {
+		opts.CookieName, w.tokName = "sess-c17", "sess-c17"
+	}
+	opts.SignRequest = c.Rng.Intn(3) == 0
+	opts.CookieSameSite = []http.SameSite{0, http.SameSiteLaxMode, http.SameSiteNoneMode}[c.Rng.Intn(3)]
+	w.cfg += fmt.Sprintf(" default=%q cookie=%s signreq=%v samesite=%d", opts.DefaultRedirectURI, w.tokName, opts.SignRequest, opts.CookieSameSite)
 	if customRS {
 		opts.RelayStateFunc = func(http.ResponseWriter, *http.Request) string {
 			w.rsCount++
@@ -162,7 +175,7 @@ func (w *c17World) start() {
 	// a fresh browser tab without session: send only tracking cookies (not the session cookie), as the flow start must be unauthenticated
 	var cs []*browser.Cookie
 	for _, ck := range w.jar.For(&u, w.now) {
-		if ck.Name != "token" {
+		if ck.Name != w.tokName {
 			cs = append(cs, ck)
 		}
 	}
@@ -329,7 +342,7 @@ func (w *c17World) deliver(d *c17Delivery) {
 	var sess *http.Cookie
 	cleared := map[string]*http.Cookie{}
 	for _, sc := range resp.Cookies() {
-		if sc.Name == "token" && sc.Value != "" && sc.MaxAge >= 0 {
+		if sc.Name == w.tokName && sc.Value != "" && sc.MaxAge >= 0 {
 			sess = sc
 		}
 		if strings.HasPrefix(sc.Name, "saml_") && (sc.MaxAge < 0 || (!sc.Expires.IsZero() && sc.Expires.Before(w.now))) {
@@ -372,7 +385,7 @@ func (w *c17World) deliver(d *c17Delivery) {
 			return
 		}
 		// I2
-		want := "/"
+		want := w.defURI
 		if d.hasRS && d.relay != "" {
 			if named == nil {
 				w.violation("I2/session-with-unverifiable-relay-state", fmt.Sprintf("session established although RelayState %q names no authentic presented tracking cookie", truncate(d.relay, 60)), extra)
@@ -529,7 +542,7 @@ func (w *c17World) cookieHeaderFor(mode int, fl *c17Flow) (string, string) {
 		}
 		return fl.cookieName + "=" + v, "tampered"
 	case 6:
-		if tok := w.jar.Get("token", w.now); tok != nil {
+		if tok := w.jar.Get(w.tokName, w.now); tok != nil {
 			name := "saml_" + w.sessUser
 			if r.Intn(2) == 0 && fl.index != "" {
 				name = "saml_" + fl.index
